@@ -669,8 +669,9 @@ func CreatorsFromCreateEvent(createEvent PDU) (creators []string) {
 	var content CreateContent
 	err := json.Unmarshal(createEvent.Content(), &content)
 	if err != nil {
-		// should not be possible as we already have made the PDU
-		panic("invalid create event content: " + string(createEvent.JSON()))
+		// The content of an event that has been parsed can be anything: a create
+		// event whose content is unusable names no additional creators.
+		return creators
 	}
 	creators = append(creators, content.AdditionalCreators...)
 	return creators
